@@ -208,12 +208,22 @@ class ConstFold:
         import os
         if isinstance(e, ast.Constant):
             return e.value
+        if not isinstance(e, ast.Name) and self.env and norm(e) in self.env:
+            return self.env[norm(e)]
         if isinstance(e, ast.Name):
             if e.id in self.env:
                 return self.env[e.id]
             d = single_def(self.fi, e.id)
             if d is not None:
                 return self.ev(d[1])
+            # a, b, c = helper(...)  : component of a folded tuple
+            for n in walk_shallow(self.fi.node):
+                if isinstance(n, ast.Assign) and len(n.targets) == 1 and isinstance(n.targets[0], (ast.Tuple, ast.List)):
+                    names = [norm(x) for x in n.targets[0].elts]
+                    if e.id in names and names.count(e.id) == 1 and len(assignments_to(self.fi, e.id)) == 1:
+                        v = self.ev(n.value)
+                        if isinstance(v, tuple) and len(v) == len(names):
+                            return v[names.index(e.id)]
             f = self.fi.parent
             while f is not None:
                 d = single_def(f, e.id)
@@ -223,6 +233,9 @@ class ConstFold:
             s = self.ctx.prog.fold_str(self.fi.module, e)
             if s is not None:
                 return s
+            r = self.ctx.prog.resolve_global(self.fi.module, e.id)
+            if isinstance(r, tuple) and r[0] == "const" and isinstance(r[1].consts[r[2]], (ast.Tuple, ast.List, ast.Constant)):
+                return self.ev(r[1].consts[r[2]])
             raise AnalysisError("cannot fold name %r in %s" % (e.id, self.fi.qualname))
         if isinstance(e, ast.BinOp) and isinstance(e.op, ast.Add):
             return self.ev(e.left) + self.ev(e.right)
@@ -299,6 +312,31 @@ class ConstFold:
                     args = [self.ev(a) for a in e.args]
                     kw = {k.arg: self.ev(k.value) for k in e.keywords}
                     return getattr(base, e.func.attr)(*args, **kw)
+            # an in-repo helper that just builds and returns a string / tuple:
+            # fold its return expression with the parameters bound
+            callee = callee_func(self.ctx, self.fi, e)
+            if callee is not None and self._depth < 40:
+                rets = [r for r in walk_shallow(callee.node) if isinstance(r, ast.Return) and r.value is not None]
+                if len(rets) == 1:
+                    from .callgraph import bind_call
+                    binding, problems, star = bind_call(e, callee)
+                    env = {}
+                    for p_, a_ in binding.items():
+                        try:
+                            env[p_] = self.ev(a_)
+                        except AnalysisError:
+                            if not self.lenient:
+                                raise
+                            env[p_] = self.UNKNOWN
+                    for p_, d_ in callee.defaults().items():
+                        if p_ not in env:
+                            try:
+                                env[p_] = ConstFold(self.ctx, callee, {}, self.lenient).ev(d_)
+                            except AnalysisError:
+                                pass
+                    sub = ConstFold(self.ctx, callee, env, self.lenient)
+                    sub._depth = self._depth + 1
+                    return sub.ev(rets[0].value)
             raise AnalysisError("cannot fold call %s" % norm(e))
         raise AnalysisError("cannot fold %s" % norm(e))
 
@@ -322,3 +360,138 @@ def call_site_envs(ctx, fi):
                 pass
         envs.append((env, call))
     return envs
+
+
+def calls_transitive(ctx, fi, expr, depth=0, seen=None):
+    """callee names of every call in expr, descending into the single return
+    expression of resolved in-repo helpers."""
+    seen = seen if seen is not None else set()
+    out = []
+    for c in ast.walk(expr):
+        if isinstance(c, ast.Call):
+            out.append(callee_name(ctx, fi, c))
+            cf = callee_func(ctx, fi, c)
+            if cf is not None and cf.qualname not in seen and depth < 5:
+                seen.add(cf.qualname)
+                for r in walk_shallow(cf.node):
+                    if isinstance(r, ast.Return) and r.value is not None:
+                        out += calls_transitive(ctx, cf, r.value, depth + 1, seen)
+                    elif isinstance(r, ast.Assign):
+                        out += calls_transitive(ctx, cf, r.value, depth + 1, seen)
+    return out
+
+
+class IntEval:
+    """Exhaustive evaluation of a small pure integer / boolean function body
+    on concrete values of its symbols (finite window), by interpreting the
+    syntax tree: Assign, AugAssign, If, Return, Expr, Raise.  Anything else is
+    an AnalysisError.  ``symbols`` maps access-path text -> int.  Returns
+    ('return', value) | ('raise', None) | ('fall', None)."""
+
+    def __init__(self, symbols, on_call=None):
+        self.sym = symbols
+        self.on_call = on_call
+
+    def ev(self, e, st):
+        if isinstance(e, ast.Constant):
+            return e.value
+        k = norm(e)
+        if k in st:
+            return st[k]
+        if k in self.sym:
+            return self.sym[k]
+        if isinstance(e, ast.Name):
+            raise AnalysisError("IntEval: unknown name %s" % e.id)
+        if isinstance(e, ast.UnaryOp):
+            v = self.ev(e.operand, st)
+            return (not v) if isinstance(e.op, ast.Not) else (-v if isinstance(e.op, ast.USub) else v)
+        if isinstance(e, ast.BinOp):
+            a, b = self.ev(e.left, st), self.ev(e.right, st)
+            t = type(e.op)
+            if t is ast.Add: return a + b
+            if t is ast.Sub: return a - b
+            if t is ast.Mult: return a * b
+            if t is ast.FloorDiv: return a // b
+            if t is ast.Div: return a / b
+            if t is ast.Mod: return a % b
+            raise AnalysisError("IntEval: operator in %s" % k)
+        if isinstance(e, ast.BoolOp):
+            if isinstance(e.op, ast.And):
+                v = True
+                for x in e.values:
+                    v = self.ev(x, st)
+                    if not v:
+                        return v
+                return v
+            v = False
+            for x in e.values:
+                v = self.ev(x, st)
+                if v:
+                    return v
+            return v
+        if isinstance(e, ast.Compare):
+            left = self.ev(e.left, st)
+            for op, c in zip(e.ops, e.comparators):
+                right = self.ev(c, st)
+                t = type(op)
+                ok = {ast.Lt: lambda a, b: a < b, ast.LtE: lambda a, b: a <= b, ast.Gt: lambda a, b: a > b, ast.GtE: lambda a, b: a >= b,
+                      ast.Eq: lambda a, b: a == b, ast.NotEq: lambda a, b: a != b, ast.Is: lambda a, b: a is b, ast.IsNot: lambda a, b: a is not b}.get(t)
+                if ok is None:
+                    raise AnalysisError("IntEval: comparison in %s" % k)
+                if not ok(left, right):
+                    return False
+                left = right
+            return True
+        if isinstance(e, ast.IfExp):
+            return self.ev(e.body, st) if self.ev(e.test, st) else self.ev(e.orelse, st)
+        if isinstance(e, ast.Call):
+            if self.on_call is not None:
+                r = self.on_call(e, self, st)
+                if r is not NotImplemented:
+                    return r
+            if isinstance(e.func, ast.Name) and e.func.id in ("bool", "int", "abs", "min", "max"):
+                return {"bool": bool, "int": int, "abs": abs, "min": min, "max": max}[e.func.id](*[self.ev(a, st) for a in e.args])
+            raise AnalysisError("IntEval: call %s" % k)
+        if isinstance(e, ast.Tuple):
+            return tuple(self.ev(x, st) for x in e.elts)
+        raise AnalysisError("IntEval: expression %s" % k)
+
+    def run(self, stmts, st=None):
+        st = dict(st or {})
+        for s in stmts:
+            if isinstance(s, ast.Expr):
+                if isinstance(s.value, ast.Constant):
+                    continue
+                if isinstance(s.value, ast.Call):
+                    if self.on_call is not None:
+                        self.on_call(s.value, self, st)
+                    continue
+                continue
+            if isinstance(s, ast.Assign) and len(s.targets) == 1:
+                v = self.ev(s.value, st)
+                t = s.targets[0]
+                if isinstance(t, (ast.Tuple, ast.List)):
+                    for tt, vv in zip(t.elts, v):
+                        st[norm(tt)] = vv
+                else:
+                    st[norm(t)] = v
+                continue
+            if isinstance(s, ast.AugAssign):
+                cur, v = self.ev(s.target, st), self.ev(s.value, st)
+                st[norm(s.target)] = cur + v if isinstance(s.op, ast.Add) else cur - v if isinstance(s.op, ast.Sub) else None
+                continue
+            if isinstance(s, ast.If):
+                r = self.run(s.body if self.ev(s.test, st) else s.orelse, st)
+                if r[0] != "fall":
+                    return r
+                st = r[1]
+                continue
+            if isinstance(s, ast.Return):
+                self._last_state = dict(st)
+                return ("return", self.ev(s.value, st) if s.value is not None else None)
+            if isinstance(s, ast.Raise):
+                return ("raise", None)
+            if isinstance(s, ast.Pass):
+                continue
+            raise AnalysisError("IntEval: statement %s" % norm(s)[:50])
+        return ("fall", st)
